@@ -23,6 +23,9 @@ type c08Case struct {
 	Patch  []byte `json:"patch"`
 	Target string `json:"target"`
 	CLI    bool   `json:"cli"`
+	// TargetIndex selects the target of a native-fuzzing crasher (the fuzz
+	// target takes an index, not the text).
+	TargetIndex int `json:"target_index,omitempty"`
 }
 
 // c08Stage classifies how deep into gopatch the patch got, from the outcome.
@@ -363,9 +366,42 @@ func TestReplayC08(t *testing.T) {
 		return
 	}
 	run.DefaultTimeout = hangTimeout
+	if cs.Mode == "fuzz" && cs.Target == "" {
+		ts := c08Targets()
+		cs.Target = ts[cs.TargetIndex%len(ts)]
+	}
 	sig, msg, stage := evalC08(&cs)
 	t.Logf("stage=%s sig=%q", stage, sig)
 	if sig != "" {
 		violate(t, "C08", sig, msg, &cs)
 	}
+}
+
+// FuzzC08 is the coverage-guided campaign (native go fuzzing) run by the
+// thorough tier. The oracle is the same as in TestC08; a campaign cannot be
+// pinned to a seed, the saved failing input is the reproducible unit.
+func FuzzC08(f *testing.F) {
+	run.DefaultTimeout = hangTimeout
+	targets := c08Targets()
+	for i, p := range corpus.RepoPatches() {
+		f.Add(p.Src, uint8(i))
+	}
+	for i, hc := range c08Hostile {
+		f.Add([]byte("@@\n@@\n-"+hc+"\n+x\n"), uint8(i))
+		f.Add([]byte("@@\nvar x expression\n@@\n-foo(x)\n+"+hc+"\n"), uint8(i))
+	}
+	f.Fuzz(func(t *testing.T, patch []byte, ti uint8) {
+		if len(patch) > 4096 {
+			return
+		}
+		cs := &c08Case{Mode: "fuzz", Patch: patch, Target: targets[int(ti)%len(targets)]}
+		sig, msg, _ := evalC08(cs)
+		if sig == "" || isKnown("C08", sig) {
+			return
+		}
+		if strings.HasPrefix(sig, "hang") && !c08ConfirmHang(cs) {
+			return
+		}
+		t.Fatalf("VIOLATION C08 [%s]: %s", sig, trunc(msg, 3000))
+	})
 }
